@@ -196,15 +196,22 @@ def enumerate_pair(seed, tier, explicit=None):
             noop = (post_dump == pre_dump)
             # prefix states for per-lexicon transactions of a multi-match removal
             accepted = [pre_dump]
-            if tgt['op'] == 'remove' and txns and len([t for t in txns if t]) > 1:
+            if tgt['op'] == 'remove' and txns and len(txns) > 1:
+                # a specifier matching several lexicons is removed in per-lexicon
+                # transactions: the accepted durable states are the prefix states (a later
+                # match may already be gone as the extension of an earlier one, so the last
+                # prefix state can equal the complete result while the call is still looping)
                 done = []
-                for t in [t for t in txns if t][:-1]:
+                nonempty = [t for t in txns if t]
+                for t in nonempty[:-1]:
                     done.append(t[-1])
                     sim.load()
                     for sp in done:
                         wn.remove(sp, progress_handler=None)
                     sim.W.restart()
                     accepted.append(observe.raw_dump(sim.W.dbpath()))
+                if txns[-1] == [] or len(nonempty) < len(txns):
+                    accepted.append(post_dump)
             # ---- the fault space
             points = []
             for k in range(1, K + 1):
